@@ -45,6 +45,9 @@ PROF = dict(probe=True, stop_p=.12, n_p=.1, ends_p=.08, wtt_p=.2, slowcancel=.2,
 # run_receiver_task running for the whole scenario over a listen() that fails 0..3 times (recv_props.gen_live)
 PROF_LIVE = dict(probe=True, limited_only=True, stop_p=.1, n_p=.08, ends_p=.05, wtt_p=.15, slowcancel=.1, abort_p=.05, mw_p=.1, reg_p=.1,
                  A_choices=[1, 1, 1, 2, 2, 3, 4])
+# one Receiver object that listens again after listen() failed with every slot busy / returned from a stop whose
+# wait_tasks_timeout expired (recv_props.gen_relisten)
+PROF_RELISTEN = dict(slowcancel=.1, abort_p=.04, mw_p=.08, wire_p=.1)
 FAIL_POINTS = ("pre_fail", "post_fail", "save_fail", "psave_fail", "onerr_fail")
 DELTA = R.US            # a ready message must start within 1 s (virtual) of a slot being free
 
@@ -67,6 +70,9 @@ def oracle(sc, obs):
     #     Under run_receiver_task (sc["live"]) "one worker" is read as one listening session (the reading that demands less):
     #     a callback that a failed session left running is not counted against the session that replaced it; every session is
     #     held to the limit by its own messages.
+    #     ONE Receiver object that listens several times (recv_props.gen_relisten) is one worker over all its sessions: every
+    #     message it is processing counts, whichever session took it.
+    wkey = (lambda a: 0) if f.same_rcv else f.session_of
     procs, bodies, peak, bpeak = {}, {}, 0, 0
     cbopen, inflight = set(), {}
     orders = {}
@@ -74,7 +80,7 @@ def oracle(sc, obs):
     for e in f.raw:
         t, tag, a = e[0], e[1], e[2]
         if tag in ("cb.start", "cb.end", "ack", "hook.aw", "hook.begin", "ack.end", "hook.aw.end", "hook.end", "body.in", "body.out"):
-            proc, body = procs.setdefault(f.session_of(a), set()), bodies.setdefault(f.session_of(a), set())
+            proc, body = procs.setdefault(wkey(a), set()), bodies.setdefault(wkey(a), set())
         if tag == "cb.start":
             if proc and A == 1:
                 serial_ok = False
@@ -105,8 +111,15 @@ def oracle(sc, obs):
         peak = max([peak] + [len(x) for x in procs.values()])
         bpeak = max([bpeak] + [len(x) for x in bodies.values()])
     if A is not None and max(peak, bpeak) > A:
-        out.append(dict(what="more than max_async_tasks messages processed at one instant", observed=dict(peak=peak, bodies=bpeak),
+        out.append(dict(what="more than max_async_tasks messages processed at one instant" +
+                             (" by one Receiver object that listens again while callbacks of its earlier listen() are in flight"
+                              if f.same_rcv else ""), observed=dict(peak=peak, bodies=bpeak),
                         expected="<= %d" % A, sig=dict(kind="limit")))
+    if f.limit_only or f.slot_lost:
+        # one Receiver object, and a session of it ended while its runner held a slot it had given to no callback (listen()
+        # returned from a stop, or failed while the runner was waiting for a message): that slot is gone by construction of
+        # runner() - a second listen() on such an object is not promised the full capacity.  Only the limit is demanded.
+        return out
     # (2) limit 1: strictly one at a time, in delivery order
     if A == 1:
         for s in sorted(set(f.sess.values()) | set(orders)):
@@ -149,7 +162,8 @@ def oracle(sc, obs):
             ready = max([ready] + [f.sess_start[s + 1] for _, s, _ in f.faults[:len(before)]])
             if i in f.dropped:
                 continue
-            spans = [sp for j, sp in all_spans.items() if f.session_of(j) == f.session_of(i)]
+            if not f.same_rcv:      # (one Receiver object: its sessions share the slots)
+                spans = [sp for j, sp in all_spans.items() if f.session_of(j) == f.session_of(i)]
         # earliest instant >= ready at which fewer than A callbacks hold a slot (computed from the real log of the others)
         free = ready
         if A is not None:
@@ -227,6 +241,8 @@ def run(ctx):
     scs = [R.gen_scenario(r, PROF) for _ in range(ctx.n(400, 30000))]
     r4 = ctx.sub_rng("gen-live")             # own stream: the scenarios above are what they were
     scs += [R.gen_live(r4, PROF_LIVE) for _ in range(ctx.n(70, 4000))]
+    r6 = ctx.sub_rng("gen-relisten")         # own stream: ONE Receiver object over several listen() sessions
+    scs += [R.gen_relisten(r6, PROF_RELISTEN) for _ in range(ctx.n(60, 3000))]
     broken = explore(ctx, rep, scs, "main")
     if not ctx.quick:
         broken = explore(ctx, rep, R.grid_scenarios(), "grid") or broken
